@@ -17,6 +17,9 @@ pub enum Fault {
     ErrFrom(usize),
     /// operation k, if it is a write, returns Ok(0); otherwise behaves like ErrOnce
     WriteZero(usize),
+    /// operation k, if it is a read, fails once with ErrorKind::Interrupted (which a caller may
+    /// legitimately retry); other operations are not disturbed
+    InterruptedRead(usize),
 }
 
 #[derive(Clone, Debug, Default, PartialEq, Eq, Serialize, Deserialize)]
@@ -132,6 +135,15 @@ fn injected(k: usize) -> io::Error {
 impl TState {
     fn fault_now(&mut self, kind: OpKind) -> Option<io::Result<usize>> {
         let k = self.n_ops;
+        if let Fault::InterruptedRead(f) = self.fault {
+            if f == k && kind == OpKind::Read {
+                if self.fault_fired_at_op.is_none() {
+                    self.fault_fired_at_op = Some(k);
+                }
+                return Some(Err(io::Error::new(io::ErrorKind::Interrupted, format!("injected EINTR at op {}", k))));
+            }
+            return None;
+        }
         let hit = match self.fault {
             Fault::ErrOnce(f) => f == k,
             Fault::ErrFrom(f) => k >= f,
